@@ -613,7 +613,7 @@ static size_t fz_text_mutate(uint8_t *d, size_t size, size_t maxsize, unsigned s
 	return LLVMFuzzerMutate(orig, size, maxsize);
     a = fzm_below(n);
     b = fzm_below(n);
-    switch (fzm_below(9)) {
+    switch (fzm_below(10)) {
     case 0:	/* delete a token / line */
 	nsize = fzm_replace(d, size, cap, spans[a], (const uint8_t *)"", 0);
 	break;
@@ -701,6 +701,16 @@ static size_t fz_text_mutate(uint8_t *d, size_t size, size_t maxsize, unsigned s
 	    memcpy(tmp + l0, d + spans[a].off, spans[a].len);
 	    memcpy(tmp + l0 + spans[a].len, wraps[w][1], l1);
 	    nsize = fzm_replace(d, size, cap, spans[a], tmp, l0 + spans[a].len + l1);
+	}
+	break;
+    case 8:	/* YAML anchor on one token and an alias to it in place of a later one ("&a [1, *a]": shared or self-containing nodes) */
+	if (!lines && a != b && spans[a].len <= sizeof(tmp) - 8) {
+	    size_t lo = a < b ? a : b, hi = a < b ? b : a;
+	    fzm_span_t at = { spans[lo].off, 0 };
+
+	    nsize = fzm_replace(d, size, cap, spans[hi], (const uint8_t *)"*a", 2);
+	    if (nsize)
+		nsize = fzm_replace(d, nsize, cap, at, (const uint8_t *)"&a ", 3);
 	}
 	break;
     default:	/* move a line / token to another place (keyword reordering) */
